@@ -163,11 +163,13 @@ type Loc struct {
 }
 
 func (ex *Exec) lookupVar(o types.Object) *Obj {
-	for i := len(ex.frames) - 1; i >= 0; i-- {
-		if v, ok := ex.frames[i].vars[o]; ok {
-			return v
+	if len(ex.frames) > 0 {
+		// the innermost frame holds the locals visible here; a function literal also sees its enclosing frames
+		for fm := ex.frames[len(ex.frames)-1]; fm != nil; fm = fm.parent {
+			if v, ok := fm.vars[o]; ok {
+				return v
+			}
 		}
-		break // only the innermost frame holds locals visible here
 	}
 	if v, ok := ex.globals[o]; ok {
 		return v
@@ -342,6 +344,8 @@ func (ex *Exec) eval(e ast.Expr) Value {
 	switch e := e.(type) {
 	case *ast.ParenExpr:
 		return ex.eval(e.X)
+	case *ast.FuncLit:
+		return ClosureV{Lit: e, Env: ex.frame()}
 	case *ast.Ident:
 		if e.Name == "nil" {
 			t := ex.typeOf(e)
